@@ -372,6 +372,10 @@ def _sweeps(tier, seed):
 def units(tier, seed):
     us = [{"kind": "force", "desc": d} for d in _worlds(tier, seed)]
     us += [{"kind": "shipped", "desc": d} for d in _shipped(tier, seed)]
+    # beyond the small scope: evaluation limits of 38000-40000 with more than 32767 evaluations on one level (narrow counters)
+    from ..scale import many_evaluation_worlds
+
+    us += [{"kind": "shipped", "desc": d} for d in many_evaluation_worlds(tier, seed)]
     us += [{"kind": "evalsweep", "desc": d} for d in _sweeps(tier, seed)]
     # the SAME stop-condition object used for several trees of one process
     for g in ({"kind": "evals", "n": 40}, {"kind": "fevals", "n": 30, "weights": "equal"}, {"kind": "metaepoch", "n": 3}, {"kind": "noactive", "n": 1}, {"kind": "allstopped"}, {"kind": "rootstopped"}):
